@@ -122,7 +122,9 @@ def _eligible_def(fn):
             return False
         if isinstance(n, ast.Call):
             nm = n.func.attr if isinstance(n.func, ast.Attribute) else (n.func.id if isinstance(n.func, ast.Name) else None)
-            if nm == fn.name:
+            # recursion: the same name called on self / as a bare name (a same-named method of another object is not)
+            if nm == fn.name and (isinstance(n.func, ast.Name) or
+                                  (isinstance(n.func.value, ast.Name) and n.func.value.id in ('self', 'cls'))):
                 return False
     return True
 
@@ -546,10 +548,81 @@ def _hoist_nested_helper_calls(trees, keep):
     return count
 
 
-def expand(trees, keep=frozenset()):
+def _expand_class_local_duplicates(trees, anchored_owner):
+    """A private method whose simple name is also defined elsewhere (e.g. a new `RaggedArray._update_len` next to
+    `Array._update_len`) is not eligible for the name-based rounds below.  Inside its own class the calls
+    `self.<name>(...)` are unambiguous: when all of them are statement-level calls, they are inlined and the definition
+    is removed from that class.  `anchored_owner(name, classname)` says which definitions are role-bearing and stay."""
+    done = []
+    defs = {}
+    for tree in trees.values():
+        for c in [n for n in tree.body if isinstance(n, ast.ClassDef)]:
+            for m in [n for n in c.body if isinstance(n, ast.FunctionDef)]:
+                defs.setdefault(m.name, []).append((c, m))
+        for f in [n for n in tree.body if isinstance(n, ast.FunctionDef)]:
+            defs.setdefault(f.name, []).append((None, f))
+    for nm, lst in defs.items():
+        if len(lst) < 2 or not _is_private(nm):
+            continue
+        for c, m in lst:
+            if c is None or anchored_owner(nm, c.name) or not _eligible_def(m):
+                continue
+            h = _Helper(m, c, '')
+            if not h.is_method:
+                continue
+            mentions = good = 0
+            for meth in [x for x in c.body if isinstance(x, ast.FunctionDef) and x is not m]:
+                for n in ast.walk(meth):
+                    if isinstance(n, ast.Attribute) and n.attr == nm and isinstance(n.value, ast.Name) and n.value.id == 'self':
+                        mentions += 1
+                for n in ast.walk(meth):
+                    for fld in ('body', 'orelse', 'finalbody'):
+                        body = getattr(n, fld, None)
+                        if isinstance(body, list) and body and isinstance(body[0], ast.stmt):
+                            for st in body:
+                                cl, kind = _stmt_call(st)
+                                if cl is not None and isinstance(cl.func, ast.Attribute) and cl.func.attr == nm and \
+                                        isinstance(cl.func.value, ast.Name) and cl.func.value.id == 'self':
+                                    good += 1
+            if not good or good != mentions:
+                continue
+            # trial, then replace
+            ok = True
+            sites = []
+            for meth in [x for x in c.body if isinstance(x, ast.FunctionDef) and x is not m]:
+                for n in ast.walk(meth):
+                    for fld in ('body', 'orelse', 'finalbody'):
+                        body = getattr(n, fld, None)
+                        if isinstance(body, list) and body and isinstance(body[0], ast.stmt):
+                            for st in body:
+                                cl, kind = _stmt_call(st)
+                                if cl is not None and isinstance(cl.func, ast.Attribute) and cl.func.attr == nm and \
+                                        isinstance(cl.func.value, ast.Name) and cl.func.value.id == 'self':
+                                    if _instantiate(h, cl, kind, st) is None:
+                                        ok = False
+                                    sites.append((n, fld, st, cl, kind))
+            if not ok:
+                continue
+            for n, fld, st, cl, kind in sites:
+                body = getattr(n, fld)
+                i = [k for k, x in enumerate(body) if x is st]
+                if not i:
+                    continue
+                rep = _instantiate(h, cl, kind, st) or [ast.copy_location(ast.Pass(), st)]
+                body[i[0]:i[0] + 1] = rep
+            c.body = [x for x in c.body if x is not m] or [ast.Pass()]
+            done.append(nm)
+    for tree in trees.values():
+        ast.fix_missing_locations(tree)
+    return done
+
+
+def expand(trees, keep=frozenset(), anchored_owner=None):
     """trees: {module name: ast.Module}, modified in place.  Returns the sorted list of
     helpers that were inlined (and whose definitions were removed)."""
     inlined = list(_expand_expr_helpers(trees, keep))
+    if anchored_owner is not None:
+        inlined.extend(x for x in _expand_class_local_duplicates(trees, anchored_owner) if x not in inlined)
     _hoist_nested_helper_calls(trees, keep)
     removed, used = _expand_raise_predicates(trees, keep)
     inlined.extend(x for x in used if x not in inlined)
